@@ -3,6 +3,7 @@
 -/
 import SonicModel.Lemmas.StrDecodeMain
 import SonicModel.Lemmas.SkipRefine
+import SonicModel.Lemmas.StrBlockProof
 namespace Sonic.Thm.C09
 open Sonic Gen Impl
 
@@ -35,6 +36,32 @@ theorem decode_correct (lossy : Bool) (buf : Buf) (i : Nat) :
 theorem skip_only_correct (buf : Buf) (i : Nat) :
     (skipString buf buf.size i).erase = Res.ofOpt (Spec.stringG buf i) :=
   skipString_refines buf i
+
+/-- **… at every length and alignment**: the copying decoder WITH ITS 32-BYTE BLOCKS (`Impl/StrBlock.lean`: `parse_string_raw`
+    — blocks while 32 bytes remain, `has_quote_first` / `has_unescaped` / `has_backslash` from the offsets of the first quote,
+    backslash and control byte, then bytewise — and `parse_string_escaped` — `parse_escaped_char` with directly following
+    escapes, blocks that copy 32 bytes or up to the first backslash, then bytewise) always terminates and, for every buffer and
+    every start, accepts exactly the literals of the specification with the same bytes and the same end, in strict and in lossy
+    mode: wherever the block edges fall relative to quotes, escapes and control bytes -/
+theorem copying_decoder_blocks_eq_spec (lossy : Bool) (buf : Buf) (i : Nat) :
+    ∃ r, StrBlock.parseStringRaw lossy buf i = some r ∧ r.view = Spec.stringS lossy buf i := by
+  obtain ⟨r, h1, h2⟩ := StrBlock.parseStringRaw_eq lossy buf i
+  exact ⟨r, h1, by rw [h2]; exact Sonic.decode_correct lossy buf i⟩
+
+/-- a literal the decoder accepts ends in a quote and holds no raw control byte -/
+theorem decoded_literal_has_no_control_byte (lossy : Bool) (buf : Buf) (i : Nat) (bs : List UInt8) (e : Nat)
+    (h : (decodeFrom lossy buf i).view = some (bs, e)) :
+    i < e ∧ buf[e - 1]? = some 34 ∧ ∀ k, i ≤ k → k + 1 < e → ∃ c, buf[k]? = some c ∧ StrBlock.isCtl c = false :=
+  StrBlock.view_shape lossy buf _ i bs e (Nat.le_refl _) h
+
+/-- the order of the block's tests matters: with the control-byte test behind the quote / backslash tests (the change of
+    seed C09d) a raw TAB that stands before a backslash in a later block is copied into the string.  `\"`, TAB, `b`, `\n`,
+    thirty `c`, the closing quote, padding -/
+def orderWitness : Buf := ([92, 34, 9, 98, 92, 110] ++ List.replicate 30 (99 : UInt8) ++ [34] ++ List.replicate 40 (32 : UInt8)).toArray
+theorem block_order_matters :
+    ((StrBlock.rawLoop true false orderWitness 300 0 0).map DecRes.view = some none) ∧
+    ((StrBlock.rawLoop false false orderWitness 300 0 0).map (fun r => (r.view.map (·.2))) = some (some 37)) := by
+  decide +kernel
 
 /-! non-vacuity -/
 /-- `"a\né😀"` followed by garbage -/
